@@ -25,7 +25,7 @@ pub fn c14_prefix_helpers() {
 }
 
 #[cfg(all(test, verif_replay))]
-mod driver {
+pub(crate) mod driver {
     use super::*;
     use serde_json::{json, Map, Value};
 
@@ -74,12 +74,12 @@ mod driver {
         let (ws, wn) = abs(bk.window_start);
         json!([bk.tokens.to_bits(), ls, ln, bk.requests_in_window, ws, wn])
     }
-    fn freeze_clock_at(case: &Value) {
+    pub(crate) fn freeze_clock_at(case: &Value) {
         vp::clock::reset();
         vp::clock::push_mono(u(case, "now.s"), u(case, "now.ns") as u32);
         vp::clock::arm(true);
     }
-    fn thaw() {
+    pub(crate) fn thaw() {
         vp::clock::arm(false);
         vp::clock::reset();
     }
@@ -94,7 +94,7 @@ mod driver {
         json!({"ret": ret, "post": obs_bucket(&bk), "shim": vp::clock::available()})
     }
 
-    fn obs_engine<K: Eq + std::hash::Hash + Clone + ToString>(e: &Engine<K>, name: &str, probes: &[(String, K)], out: &mut Map<String, Value>) {
+    pub(crate) fn obs_engine<K: Eq + std::hash::Hash + Clone + ToString>(e: &Engine<K>, name: &str, probes: &[(String, K)], out: &mut Map<String, Value>) {
         {
             let g = e.global.lock().unwrap();
             out.insert(format!("{name}.global"), obs_bucket(&g));
@@ -105,7 +105,7 @@ mod driver {
             out.insert(format!("{name}.keyed@{label}"), m.peek(k).map(obs_bucket).unwrap_or(Value::Null));
         }
     }
-    fn fill_engine<K: Eq + std::hash::Hash + Clone + ToString>(e: &Engine<K>, case: &Value, name: &str, probes: &[(String, K)]) {
+    pub(crate) fn fill_engine<K: Eq + std::hash::Hash + Clone + ToString>(e: &Engine<K>, case: &Value, name: &str, probes: &[(String, K)]) {
         *e.global.lock().unwrap() = bucket(case, &format!("{name}.global"));
         let mut m = e.keyed.write();
         for pass in ["other", "cand"] {
